@@ -1,7 +1,8 @@
 (* C06/Properties.v — property theorems only (each closed by [exact lemma] and followed by
    [Print Assumptions]).  Model: C06/Model.v (the code after fix commits 3a7f18b, 811f017, 2c8a29b). *)
 From Coq Require Import String Permutation Morphisms Sorted.
-From RM Require Import C06.Model C06.GenModel C06.Proofs C06.Proofs2 C06.Proofs3 C06.Proofs4 C06.Proofs5 C06.Proofs6 C06.Proofs7 C06.Proofs8 C06.Proofs9 C06.Proofs10 C06.Proofs11 C06.Proofs12 C06.Proofs13 C06.Proofs14 C06.Driver C06.GenDriver C06.ArchDriver Gen.UnwindConsts Gen.CfiOps.
+From RM Require Import C06.Model C06.GenModel C06.Proofs C06.Proofs2 C06.Proofs3 C06.Proofs4 C06.Proofs5 C06.Proofs6 C06.Proofs7 C06.Proofs8 C06.Proofs9 C06.Proofs10 C06.Proofs11 C06.Proofs12 C06.Proofs13 C06.Proofs14 C06.Proofs15 C06.Proofs16 C06.Driver C06.GenDriver C06.ArchDriver C06.FileTable Gen.UnwindConsts Gen.CfiOps.
+From RM Require Import Base.Word C08.Model C08.Tie Gen.C08Tables.
 Open Scope Z_scope.
 
 (* No Panic and no OutOfFuel: for ALL rule texts (arbitrary byte strings), every walker (any
@@ -661,4 +662,93 @@ Proof.
     assert (T : targets (texts_of (mkCfi (0, bs ".cfa: sp 16 + .ra: 1073742080 s1: s0 1 +") 4096 []) 256) = [bs "s1"]) by (vm_compute; reflexivity).
     rewrite T. intros n1 n2 H1 H2 Hne. cbn [In] in H1, H2.
     destruct H1 as [H1|[]], H2 as [H2|[]]; subst n1 n2. exfalso; apply Hne; reflexivity.
+Qed.
+
+(* ==== Round 5, second pass: SEVERAL INIT records in one file, through C08's generated parser tables ====
+   C06/FileTable.v: finish_item files each record under StackInfoCfi::memory_range() (Gen/C08Tables.v
+   g_mr_StackInfoCfi), the parser-local into_rangemap_safe + RangeMap::try_from_iter build the table
+   (g_record_table / g_build_parser), walk_frame finds the record with RangeMap::get (C08's rm_get: the real binary
+   search) and walks it.  Rounds 1-5 modelled "the record that covers" for pairwise disjoint records only. *)
+
+(* for ALL files (u64 addresses and sizes, any overlaps, duplicates, empty or overflowing ranges), both profiles:
+   the table is built without a panic (the `- 1` of memory_range, Range::new, try_from_iter(..).unwrap()), is sorted
+   and non-overlapping; a lookup returns only a record OF THE FILE (with finish_item's sort applied) whose own range
+   covers the address — so a record of size 0, or whose end address leaves u64, is never returned; and a record that
+   every other record lies beside (or has no range at all) is returned at every address it covers *)
+Theorem c06_file_table :
+  forall p rs, u64_file rs ->
+    exists t, cfi_file_table p rs = Ret t /\
+      StronglySorted (fun a b => snd (fst a) < fst (fst b)) t /\
+      (forall x v, rm_get t x = Some v -> exists r0, In r0 rs /\ v = finished r0 /\ cfi_covers r0 x = true) /\
+      (forall r1 r0 r2 x, rs = r1 ++ r0 :: r2 -> cfi_covers r0 x = true ->
+         (forall r', In r' (r1 ++ r2) -> beside r0 r') -> rm_get t x = Some (finished r0)).
+Proof. exact file_table_spec. Qed.
+Print Assumptions c06_file_table.
+
+(* the unwind step over a whole file: never a panic; it is None or the walk (c06_gen_refines_spec,
+   c06_gen_real_walker_refines_spec speak about it) of a record of the file that covers the address; None when no
+   record covers; the walk of r0 when r0 covers and all other records lie beside it *)
+Theorem c06_file_walk :
+  forall (S : Type) (ops : wops S) p E,
+    (forall rs addr s, u64_file rs -> exists o, gen_walk_file ops p E rs addr s = Ret o) /\
+    (forall rs addr s, u64_file rs ->
+       gen_walk_file ops p E rs addr s = Ret None \/
+       exists r0, In r0 rs /\ cfi_covers r0 addr = true /\
+                  gen_walk_file ops p E rs addr s = gen_walk_frame_cfi ops p E r0 addr s) /\
+    (forall rs addr s, u64_file rs -> (forall r0, In r0 rs -> cfi_covers r0 addr = false) ->
+       gen_walk_file ops p E rs addr s = Ret None) /\
+    (forall r1 r0 r2 addr s, u64_file (r1 ++ r0 :: r2) -> cfi_covers r0 addr = true ->
+       (forall r', In r' (r1 ++ r2) -> beside r0 r') ->
+       gen_walk_file ops p E (r1 ++ r0 :: r2) addr s = gen_walk_frame_cfi ops p E r0 addr s).
+Proof.
+  exact (fun S ops p E => conj (file_walk_total S ops p E) (conj (file_walk_sound S ops p E)
+           (conj (file_walk_none S ops p E) (file_walk_isolated S ops p E)))).
+Qed.
+Print Assumptions c06_file_walk.
+
+(* on duplicate-free files with pairwise disjoint records the table lookup is "the record that covers"
+   (GenDriver.find_record, c06_record_lookup) — the model of the first pass of this round *)
+Theorem c06_file_walk_disjoint :
+  forall (S : Type) (ops : wops S) p E rs addr s, u64_file rs -> NoDup rs -> disjoint_recs rs ->
+    gen_walk_file ops p E rs addr s =
+    match find_record rs addr with Some r => gen_walk_frame_cfi ops p E r addr s | None => Ret None end.
+Proof. exact file_walk_disjoint. Qed.
+Print Assumptions c06_file_walk_disjoint.
+
+(* OVERLAPPING INIT records (malformed input the documentation is silent about; what the code does): the record with
+   the smallest (start, end) key — among records that have a range; on equal keys the one earlier in the file — is
+   found at every address it covers, whatever overlaps it, and the unwind step is its walk.  (into_rangemap_safe
+   sorts by range and drops the later of two overlapping records as a whole; c06_nonvacuous_file_overlap shows an
+   address that only a dropped record covers finding nothing.) *)
+Theorem c06_overlap_first_key_wins :
+  forall (S : Type) (ops : wops S) p E r1 r0 r2 addr s, u64_file (r1 ++ r0 :: r2) ->
+    cfi_covers r0 addr = true ->
+    (forall r', In r' r1 -> has_range r' -> key_lt r0 r') ->
+    (forall r', In r' r2 -> has_range r' -> ~ key_lt r' r0) ->
+    (exists t, cfi_file_table p (r1 ++ r0 :: r2) = Ret t /\ rm_get t addr = Some (finished r0)) /\
+    gen_walk_file ops p E (r1 ++ r0 :: r2) addr s = gen_walk_frame_cfi ops p E r0 addr s.
+Proof.
+  exact (fun S ops p E r1 r0 r2 addr s H Hc H1 H2 =>
+    conj (file_first_wins p r1 r0 r2 addr H Hc H1 H2) (file_walk_first_wins S ops p E r1 r0 r2 addr s H Hc H1 H2)).
+Qed.
+Print Assumptions c06_overlap_first_key_wins.
+
+(* non-vacuity, and what happens to OVERLAPPING INIT records (the answers are those of the real code): A = [16,47],
+   B = [40,71] overlaps A, C has size 0, D = [2^64-16, 2^64-1] (end + 1 leaves u64), E = [72,79].  A wins the overlap;
+   B is dropped as a whole — address 60, which only B covers, finds nothing; C and D are never found; E is found;
+   the file order does not matter here *)
+Example c06_nonvacuous_file_overlap :
+  let A := mkCfi (16, bs ".cfa: 16 .ra: 8") 32 [] in
+  let B := mkCfi (40, bs ".cfa: 24 .ra: 5") 32 [] in
+  let C := mkCfi (100, bs ".cfa: 32 .ra: 5") 0 [] in
+  let D := mkCfi (18446744073709551600, bs ".cfa: 40 .ra: 5") 16 [] in
+  let E := mkCfi (72, bs ".cfa: 48 .ra: 5") 8 [] in
+  u64_file [A; B; C; D; E] /\
+  forall rs, rs = [A; B; C; D; E] \/ rs = [E; D; B; C; A] ->
+    map (fun x => o_cfa (run_mock_file_gen 8 x [] 0 [] rs [])) [15; 20; 45; 48; 60; 72; 79; 80; 100; 18446744073709551608] =
+    [None; Some 16; Some 16; None; None; Some 48; Some 48; None; None; None].
+Proof.
+  split.
+  - repeat constructor; vm_compute; try discriminate; reflexivity.
+  - intros rs [->| ->]; vm_compute; reflexivity.
 Qed.
